@@ -183,6 +183,10 @@ func (mc *Chain) processVerifyBlock(ctx context.Context, b *block.Block) error {
 		return nil
 	}
 
+	// the tickets a proposal arrives with are claims of its sender: they may count only if every one
+	// of them is a valid signature of a distinct miner of the round on the block hash
+	mc.dropUnverifiedBlockTickets(ctx, b)
+
 	// get previous block notarization tickets, and update local prev block if exist
 	if b.Round > 1 {
 		go func() {
@@ -246,7 +250,7 @@ func (mc *Chain) processVerifyBlock(ctx context.Context, b *block.Block) error {
 
 	vts := mr.GetVerificationTickets(b.Hash)
 
-	// TODO: mc.MergeVerificationTickets does not verify block's own tickets, might be a problem!
+	// the block's own tickets were verified above, the round's tickets when they were collected
 	mc.MergeVerificationTickets(b, vts)
 	if !b.IsBlockNotarized() {
 		mc.AddToRoundVerification(ctx, mr, b)
@@ -272,6 +276,44 @@ func (mc *Chain) processVerifyBlock(ctx context.Context, b *block.Block) error {
 
 	mc.checkBlockNotarization(ctx, mr, b, true)
 	return nil
+}
+
+// dropUnverifiedBlockTickets removes the verification tickets a received block carries unless all of
+// them are from distinct miners of the block's round and verify against the block hash.
+func (mc *Chain) dropUnverifiedBlockTickets(ctx context.Context, b *block.Block) {
+	bvts := b.GetVerificationTickets()
+	if len(bvts) == 0 {
+		return
+	}
+
+	ok := true
+	seen := make(map[string]struct{}, len(bvts))
+	for _, vt := range bvts {
+		if vt == nil {
+			ok = false
+			break
+		}
+		if _, dup := seen[vt.VerifierID]; dup {
+			ok = false
+			break
+		}
+		seen[vt.VerifierID] = struct{}{}
+	}
+
+	if ok {
+		cctx, cancel := context.WithTimeout(ctx, time.Second)
+		defer cancel()
+		if err := mc.VerifyTickets(cctx, b.Hash, bvts, b.Round); err != nil {
+			logging.Logger.Error("verify block - tickets carried by the block do not verify, dropping them",
+				zap.Int64("round", b.Round), zap.String("block", b.Hash), zap.Error(err))
+			ok = false
+		}
+	}
+
+	if !ok {
+		// the object was just decoded from the wire, nobody else holds it yet
+		b.VerificationTickets = nil
+	}
 }
 
 // handleVerificationTicketMessage - handles the verification ticket message.
